@@ -5,7 +5,9 @@ Driver operations for the Hooks model (C12, line protocol). Core Lean only.
   hook cfg <maxTries> <scripted|prod>            new sequence: empty table, clock 0      → ok
   hook register <authType> <header> <token> <url>  ("-" = empty string)                    → ok <report> | refused:<Code>
   hook delete <url>                                                                       → ok | refused:<Code>
-  hook notify <url>=<outcome> …   outcome: r<code>:<body> | terr | ub<code>  (body "-" = empty)
+  hook notify <url>=<outcome> …   outcome: r<code>:<body>[:<mode>] | terr | ub<code>[:<sent>]  (body "-" = empty;
+        <mode>/<sent> say HOW the target transmits the reply and are not part of the model; a body
+        token X<n> stands for n bytes and is carried as a token)
         every url of the table must be given an outcome (used only when the hook is called) → calls=[…] posts=[…] table=[…]
   hook get <url>                                                                          → <report> | refused:<Code>
   hook dump                                                                               → table=[…]
@@ -56,10 +58,15 @@ def showCalls (cs : List Call) : String := "[" ++ ",".intercalate (cs.map showCa
 
 def parseOutcome (s : String) : Option Outcome :=
   if s == "terr" then some .transportErr
-  else if s.startsWith "ub" then (s.drop 2).toString.toNat?.map .unreadableBody
+  else if s.startsWith "ub" then
+    match ((s.drop 2).toString.splitOn ":") with
+    | [c] => c.toNat?.map .unreadableBody
+    | [c, _] => c.toNat?.map .unreadableBody   -- 2nd field: bytes sent before the cut (transport detail)
+    | _ => none
   else if s.startsWith "r" then
     match ((s.drop 1).toString.splitOn ":") with
     | [c, b] => c.toNat?.map (fun n => .reply n (unesc b))
+    | [c, b, _] => c.toNat?.map (fun n => .reply n (unesc b))   -- 3rd field: how the target transmits the body (transport detail)
     | _ => none
   else none
 
